@@ -884,6 +884,12 @@ def build(desc):
     main = [expr(assign(id_("r"), outer_e)), log("r", id_("r"))]
     if desc.get("twice", 1):
         main += [log("r2", call(id_("H")))]
+    rep = desc.get("rep", 0)
+    if rep:
+        # the whole handler function again and again in one evaluation: every round must look like the first
+        # (anything a throw leaves behind in the context - a counter, a stack entry, a handler record - adds up)
+        main += [for_(var(("rr", num(0))), bin_("<", id_("rr"), num(rep)), upd("++", id_("rr")),
+                      block(try_([log("rr", call(id_("H")))], ("er", [log("rerr", call(id_("T"), id_("er")))]), None)))]
     body = prelude() + site["setup"] + decls + [var("r")]
     if desc.get("outer", "catch") == "catch":
         body.append(try_(main, ("eo", [log("outer", call(id_("T"), id_("eo")))]), None))
@@ -909,7 +915,7 @@ def _shape_id(sh):
 
 def _desc_id(d):
     return "|".join(str(x) for x in (d.get("c", "unw"), d["site"], d.get("pl", "same"), d.get("nk", ""), d.get("nk2", ""), _shape_id(d["sh"]) if "sh" in d else "",
-                                     d.get("x", "stmt"), d.get("p", 0), d.get("lk", ""), d.get("oc", 0), d.get("outer", "catch"), d.get("twice", 1), d.get("hn", ""), "top" if d.get("top") else "", d.get("v", ""), d.get("text", "")))
+                                     d.get("x", "stmt"), d.get("p", 0), d.get("lk", ""), d.get("oc", 0), d.get("outer", "catch"), d.get("twice", 1), d.get("hn", ""), "top" if d.get("top") else "", d.get("v", ""), d.get("text", ""))) + ("|rep%d" % d["rep"] if d.get("rep") else "")
 
 
 # ----------------------------------------------------------------------- campaigns
@@ -938,6 +944,16 @@ def sites_product():
                 yield d
                 if si == 0 and pl in ("same", "native1"):
                     yield dict(d, top=1, hn=None, x=d["x"] if d["x"] != "return" else "arg")
+
+
+def repeat_product(rep=48):
+    """every site in a handler function that is run `rep` more times by a loop of the same evaluation."""
+    n = 0
+    for sname in SITES:
+        site = SITES[sname]
+        n += 1
+        yield {"c": "repeat", "site": sname, "pl": _rot(PLACEMENTS, n), "sh": _rot(BASIC_SHAPES, n), "x": _rot(XCTX, n) if site["stmt"] is None else "stmt",
+               "p": n % 3 if site["stmt"] is None else 0, "nk": _rot(NATIVE_KINDS, n), "nk2": _rot(NATIVE_KINDS, n // 3 + 1), "oc": n % 3, "outer": "catch", "twice": 0, "rep": rep}
 
 
 def shapes_product():
